@@ -23,17 +23,27 @@ fn files_of(v: &Value) -> Files {
 /// module i = FileId(2 + i), filler k = FileId(100 + k).
 const MOD0: u32 = 2;
 
-fn graph(dep: bool) -> PackageGraph {
+/// `dup`: a third package `lib2` (/lib2/gleam.toml = FileId(60), its module = FileId(61)) that app also depends on and
+/// that ships a module with the same name as lib's first module.
+const DUP_TOML: u32 = 60;
+const DUP_MOD: u32 = 61;
+const DUP_TEXT: &str = "pub fn a(x) { \"dup\" }\npub fn c() { \"dup\" }\npub fn pong(n) { \"dup\" }\npub type A { A(a: String) C }\n";
+
+fn graph(dep: bool, dup: bool) -> PackageGraph {
     let mut g = PackageGraph::default();
     let app = g.add_package("app".into(), FileId(0), true);
     let lib = g.add_package("lib".into(), FileId(1), true);
     if dep {
         g.add_dep(app, ide::Dependency { package: lib });
     }
+    if dup {
+        let lib2 = g.add_package("lib2".into(), FileId(DUP_TOML), true);
+        g.add_dep(app, ide::Dependency { package: lib2 });
+    }
     g
 }
 
-fn structural(files: &Files, filler: usize, change: &mut Change, with_graph: Option<bool>) {
+fn structural(files: &Files, filler: usize, change: &mut Change, with_graph: Option<bool>, dup: bool) {
     let mut app = FileSet::default();
     let mut lib = FileSet::default();
     app.insert(FileId(0), VfsPath::new("/app/gleam.toml"));
@@ -48,13 +58,20 @@ fn structural(files: &Files, filler: usize, change: &mut Change, with_graph: Opt
     for k in 0..filler {
         lib.insert(FileId(100 + k as u32), VfsPath::new(format!("/lib/src/filler{k}.gleam")));
     }
-    change.set_roots(vec![SourceRoot::new(app, "/app".into()), SourceRoot::new(lib, "/lib".into())]);
+    let mut roots = vec![SourceRoot::new(app, "/app".into()), SourceRoot::new(lib, "/lib".into())];
+    if dup && files.len() >= 2 {
+        let mut lib2 = FileSet::default();
+        lib2.insert(FileId(DUP_TOML), VfsPath::new("/lib2/gleam.toml"));
+        lib2.insert(FileId(DUP_MOD), VfsPath::new(format!("/lib2/src/{}.gleam", files[1].0)));
+        roots.push(SourceRoot::new(lib2, "/lib2".into()));
+    }
+    change.set_roots(roots);
     if let Some(dep) = with_graph {
-        change.set_package_graph(graph(dep));
+        change.set_package_graph(graph(dep, dup && files.len() >= 2));
     }
 }
 
-fn fresh(files: &Files, filler: usize, dep: bool) -> AnalysisHost {
+fn fresh(files: &Files, filler: usize, dep: bool, dup: bool) -> AnalysisHost {
     let mut host = AnalysisHost::new();
     let mut c = Change::default();
     c.change_file(FileId(0), "".into());
@@ -65,7 +82,11 @@ fn fresh(files: &Files, filler: usize, dep: bool) -> AnalysisHost {
     for k in 0..filler {
         c.change_file(FileId(100 + k as u32), format!("pub fn filler{k}(x) {{ x + {k} }}\n").as_str().into());
     }
-    structural(files, filler, &mut c, Some(dep));
+    if dup {
+        c.change_file(FileId(DUP_TOML), "".into());
+        c.change_file(FileId(DUP_MOD), DUP_TEXT.into());
+    }
+    structural(files, filler, &mut c, Some(dep), dup);
     host.apply_change(c);
     host
 }
@@ -136,7 +157,11 @@ fn main() {
             let r = catch(|| {
                 let mut files = files_of(&hist[0]["files"]);
                 let mut dep = hist[0]["dep"].as_bool().unwrap_or(true);
-                let mut host = fresh(&files, filler, dep);
+                let mut dup = hist[0]["dup"].as_bool().unwrap_or(false);
+                let mut host = fresh(&files, filler, dep, dup);
+                // the long-lived analysis has answered everything about the initial workspace before the first change
+                // (memoised results exist that the change must invalidate)
+                let _ = answers(&host, &files, false, filler);
                 let mut pending = Change::default();
                 for (si, st) in hist.iter().enumerate().skip(1) {
                     let op = &st["op"];
@@ -160,6 +185,7 @@ fn main() {
                     }
                     let new_files = files_of(&st["files"]);
                     let new_dep = st["dep"].as_bool().unwrap_or(dep);
+                    let new_dup = st["dup"].as_bool().unwrap_or(dup);
                     // the change, built the way the server builds it: changed files only; roots when a file appears;
                     // the package graph alone when only a dependency edge changed
                     let mut c = std::mem::take(&mut pending);
@@ -168,30 +194,39 @@ fn main() {
                             c.change_file(FileId(MOD0 + i as u32), t.as_str().into());
                         }
                     }
-                    if new_dep != dep {
-                        c.set_package_graph(graph(new_dep));
+                    if new_dep != dep && new_dup == dup {
+                        c.set_package_graph(graph(new_dep, dup && new_files.len() >= 2));
                     }
                     let renamed = new_files.iter().zip(files.iter()).any(|((n, _), (o, _))| n != o);
-                    if new_files.len() != files.len() || renamed {
-                        structural(&new_files, filler, &mut c, if rng.chance(1, 2) { Some(new_dep) } else { None });
+                    if new_dup != dup {
+                        // the second dependency appears / disappears: its files, the roots and the graph in one change
+                        if new_dup {
+                            c.change_file(FileId(DUP_TOML), "".into());
+                            c.change_file(FileId(DUP_MOD), DUP_TEXT.into());
+                        }
+                        structural(&new_files, filler, &mut c, Some(new_dep), new_dup);
+                    } else if new_files.len() != files.len() || renamed {
+                        structural(&new_files, filler, &mut c, if rng.chance(1, 2) || dup { Some(new_dep) } else { None }, dup);
                     } else if new_dep == dep && rng.chance(1, 6) {
-                        structural(&new_files, filler, &mut c, if rng.chance(1, 2) { Some(new_dep) } else { None });   // roots / graph replaced by equal ones
+                        structural(&new_files, filler, &mut c, if rng.chance(1, 2) { Some(new_dep) } else { None }, dup);   // roots / graph replaced by equal ones
                     }
                     // batched with the next edit: the analysis gets both in one change (several contents for one file)
                     if st["batched"].as_bool().unwrap_or(false) && si + 1 < hist.len() && hist[si + 1]["op"]["k"] != "query" {
                         pending = c;
                         files = new_files;
                         dep = new_dep;
+                        dup = new_dup;
                         batched += 1;
                         continue;
                     }
                     host.apply_change(c);
                     files = new_files;
                     dep = new_dep;
+                    dup = new_dup;
                     steps += 1;
                     let long = answers(&host, &files, false, filler);
-                    let f1 = answers(&fresh(&files, filler, dep), &files, false, filler);
-                    let f2 = answers(&fresh(&files, filler, dep), &files, true, filler);
+                    let f1 = answers(&fresh(&files, filler, dep, dup), &files, false, filler);
+                    let f2 = answers(&fresh(&files, filler, dep, dup), &files, true, filler);
                     compared += long.len() as u64;
                     for (((k, a), (_, b)), (_, c2)) in long.iter().zip(f1.iter()).zip(f2.iter()) {
                         if a != b || b != c2 {
